@@ -38,7 +38,7 @@ func VerifC10Cid() {
 	pos := verifChoice("pos", verifParam("positions", 37))
 	b := verifU8("b")
 	if pos < 36 {
-		if verifParam("allvalues", 0) == 0 {
+		if verifParam("allvalues", 0) == 0 || pos < 4 { // the 4 header bytes (version, codec, hash code, hash length) always use the small value set
 			w := want[pos]
 			verifAssume(b == w || b == w^1 || b == w^0x80 || b == ^w || b == 0 || b == 0x7f)
 		}
